@@ -834,9 +834,6 @@ impl Network for LoopNet {
         let addrs: Vec<SocketAddr> = addrs.into_iter().collect();
         self.requests.fetch_add(1, Ordering::SeqCst);
         let key = (self.keyer)(message.verif_req_type());
-        if std::env::var("VERIF_DEBUG").is_ok() {
-            eprintln!("send {key:?} good={} n={}", addrs.contains(&self.good_addr), addrs.len());
-        }
         {
             let mut s = self.script.lock().unwrap();
             if let Some(pos) = s.iter().position(|(k, _)| *k == key) {
@@ -853,13 +850,7 @@ impl Network for LoopNet {
     async fn receive(&self) -> std::io::Result<RepairResponse> {
         let mut rx = self.rx.lock().await;
         match rx.recv().await {
-            Some(m) => {
-                if std::env::var("VERIF_DEBUG").is_ok() {
-                    let d = format!("{m:?}");
-                    eprintln!("recv {}", &d[..d.len().min(420)]);
-                }
-                Ok(m)
-            }
+            Some(m) => Ok(m),
             None => std::future::pending().await,
         }
     }
@@ -885,7 +876,17 @@ fn run_scenarios(path: &str, fx: Arc<Fx>, limit: usize, seed: u64) -> anyhow::Re
         let script = case["script"].as_array().expect("script");
         let kinds: Vec<String> = script
             .iter()
-            .map(|h| format!("{}:{}->{}", h["kind"].as_str().unwrap_or("?"), h["rp"]["v"].as_str().unwrap_or("?"), h["rp"]["req"]["t"].as_str().unwrap_or("?")))
+            .map(|h| {
+                let r = &h["rp"]["req"];
+                let t = r["t"].as_str().unwrap_or("?");
+                // which single request / which shred group of which slice is hit
+                let at = match t {
+                    "sh" => format!("sh({},{})", r["s"], r["g"]),
+                    "sr" => format!("sr({})", r["s"]),
+                    o => o.to_string(),
+                };
+                format!("{}:{}->{at}", h["kind"].as_str().unwrap_or("?"), h["rp"]["v"].as_str().unwrap_or("?"))
+            })
             .collect();
         let label = kinds.join("+");
         rep.case(&label, case["script"].to_string(), case);
@@ -925,9 +926,12 @@ fn run_scenarios(path: &str, fx: Arc<Fx>, limit: usize, seed: u64) -> anyhow::Re
             block_tx.send(b.clone()).await.expect("repair task accepts the block");
             let mut ann: Vec<String> = vec![];
             let mut stored_at = None;
-            // virtual time: REPAIR_TIMEOUT is 0.5 s; 40 s leaves room for dozens of retry rounds
-            for tick in 0..4000u32 {
-                tokio::time::sleep(std::time::Duration::from_millis(10)).await;
+            // The clock is paused and advances when every task is idle.  `repair_loop` computes the
+            // expiry of its timers from the wall clock but sleeps on the (virtual) tokio clock, so
+            // under a paused clock every entry of its timeout queue costs up to REPAIR_TIMEOUT of
+            // virtual time: the horizon is one virtual hour (thousands of queue entries).
+            for tick in 0..14_400u32 {
+                tokio::time::sleep(std::time::Duration::from_millis(250)).await;
                 while let Ok(e) = erx.try_recv() {
                     if let BlockstoreEvent::Block { block_info, .. } = e {
                         ann.push(fx.hash_name(block_info.verif_hash()));
@@ -941,8 +945,8 @@ fn run_scenarios(path: &str, fx: Arc<Fx>, limit: usize, seed: u64) -> anyhow::Re
                 if stored_at.is_none() && !ann.is_empty() {
                     stored_at = Some(tick);
                 }
-                // keep running for 3 virtual seconds after the block arrived (late / duplicate answers, retries)
-                if stored_at.is_some_and(|t| tick >= t + 300) {
+                // keep running for a while after the block arrived (late / duplicate answers, retries)
+                if stored_at.is_some_and(|t| tick >= t + 40) {
                     break;
                 }
             }
